@@ -20,6 +20,8 @@ fn titlecase_word(word: &str) -> String {
 }
 
 fn main() {
+    // cfg used by out-of-tree verification harnesses (hooks in tls_records_parser.rs)
+    println!("cargo:rustc-check-cfg=cfg(tls_parser_verif)");
     let path_txt =
         Path::new(&env::var("CARGO_MANIFEST_DIR").unwrap()).join("scripts/tls-ciphersuites.txt");
     let display = path_txt.display();
